@@ -481,11 +481,11 @@ QN1 = re.compile(r'QualifiedName\(\[QualifiedNameSegment\(Name\("([^"]*)"\)\)\]\
 
 
 def classify_rejected(text):
-    if between_operand_defect(text):
-        return "between-first-bound-containing-and-or-between"
     for name, rx in FEATURES:
         if rx.search(text):
             return name
+    if between_operand_defect(text):
+        return "between-first-bound-containing-and-or-between"
     return None
 
 
